@@ -616,9 +616,12 @@ class ACSE:
                 if self.assoc.is_acceptor and is_collision:
                     self.send_release(is_response=True)
 
-                self.assoc.is_released = True
-                self.assoc.is_established = False
-                evt.trigger(self.assoc, evt.EVT_RELEASED, {})
+                # (unless a concurrent abort() has already aborted and reported it)
+                if not self.assoc.is_aborted:
+                    self.assoc.is_released = True
+                    self.assoc.is_established = False
+                    evt.trigger(self.assoc, evt.EVT_RELEASED, {})
+
                 self.assoc.kill()
                 return
 
